@@ -47,6 +47,8 @@ type sessRun struct {
 	force  bool
 	jar    jar
 	ref    sRef
+	savedRef sRef // the reference as of the last Save that succeeded (what the jar holds)
+	lastSaveAt int64 // when that was: a Save writes every cookie anew, so 24 h later the browser has dropped them all
 	known  bool // the reference describes the jar (false after tampering)
 	toks   map[string]string // raw -> id
 	nTok   int
@@ -543,6 +545,10 @@ func (s *sessRun) request(rng *mrand.Rand, q int) {
 	scheme := "http"
 	r := httptest.NewRequest("GET", scheme+"://app.test/", nil)
 	s.expireInBrowser()
+	if s.lastSaveAt != 0 && now-s.lastSaveAt > 86400 {
+		// no Save has succeeded for more than 24 hours: every cookie's Max-Age has run out in the browser, nothing is left to read
+		s.ref, s.savedRef = sRef{}, sRef{}
+	}
 	s.jar.addTo(r)
 	if rng.Intn(4) == 0 {
 		// cookies the middleware never set, under names that look like its chunk cookies (a hostile or broken client): they are
@@ -604,6 +610,7 @@ func (s *sessRun) request(rng *mrand.Rand, q int) {
 	if !s.known || overAge {
 		// unknown or over-age jar: resynchronise the reference from what is read now
 		s.ref = sRef{access: sd.GetAccessToken(), refresh: sd.GetRefreshToken(), email: sd.GetEmail(), csrf: sd.GetCSRF(), nonce: sd.GetNonce(), ver: sd.GetCodeVerifier(), inc: sd.GetIncomingPath(), auth: sd.GetAuthenticated()}
+		s.savedRef = s.ref
 		s.known = true
 	}
 	rec := httptest.NewRecorder()
@@ -738,13 +745,16 @@ func (s *sessRun) request(rng *mrand.Rand, q int) {
 				// the codec refused a main cookie above its ceiling: nothing was written; the model says for which contents this happens
 				s.rec(M{"op": op, "obs": M{"saveErr": true}})
 				T.stat("session.save-refused-for-length")
+				// nothing of this Save reached the browser: the jar holds what the last successful Save wrote
+				s.ref = s.savedRef
 			} else {
 				T.oracle("C17", "Save failed for values written through the API", M{"err": err.Error()}, s.replay())
+				s.known = false
 			}
-			s.known = false
 			s.applyHeaders(rec.Header()) // (what an earlier Save of the same response has written reaches the browser)
 			return
 		}
+		s.savedRef, s.lastSaveAt = s.ref, now
 		lines := M{}
 		dels := []string{}
 		// the attribute text of the lines that set a cookie and of those that delete one (without the Expires date): one text each
